@@ -361,6 +361,61 @@ func coincidenceArithCase(t *mon.T, which string) {
 	t.Count("coincidence-lengths")
 }
 
+// keptBoundaryCase: roundings whose kept digits are exactly a word-size or
+// power-of-ten boundary value (gen.KeptBoundary), through Round, Add, Sub and
+// Mul.
+func keptBoundaryCase(t *mon.T, which string) {
+	r := t.Rng
+	c, x, _ := gen.KeptBoundary(r)
+	switch r.Intn(4) {
+	case 0:
+		arithCase(t, which, "round", c, x, dec.D{})
+	case 1:
+		// the same value assembled by an addition: head + tail
+		j := int64(1 + r.Intn(int(x.Digits()-1)))
+		hi, lo := new(big.Int).QuoRem(x.C, dec.Pow10(j), new(big.Int))
+		arithCase(t, which, "add", c, dec.D{Form: dec.Finite, Neg: x.Neg, C: hi, E: x.E + j}, dec.D{Form: dec.Finite, Neg: x.Neg, C: lo, E: x.E})
+	case 2:
+		arithCase(t, which, "mul", c, x, dec.D{Form: dec.Finite, C: big.NewInt(1), E: r.Range(-3, 3)})
+	default:
+		arithCase(t, which, "sub", c, x, dec.Zero(r.Bool(), x.E-r.Range(0, 3)))
+	}
+	t.Count("kept-boundary")
+}
+
+// giantRoundCase: coefficients of 100002..200001 digits next to a power of
+// ten, rounded to a precision of tens of thousands of digits (the rounding
+// step refuses to drop more than 100000 digits, so the precision has to be
+// that large): through Round, Abs, Neg, Add and Mul.
+func giantRoundCase(t *mon.T, which string, L int64) {
+	r := t.Rng
+	var cf *big.Int
+	switch r.Intn(3) {
+	case 0:
+		cf = new(big.Int).Sub(dec.Pow10(L), big.NewInt(r.Range(1, 999)))
+	case 1: // many leading nines, generic tail
+		cf = new(big.Int).Sub(dec.Pow10(L), new(big.Int).Add(dec.Pow10(L-int64(12+r.Intn(30))), big.NewInt(r.Range(0, 999999))))
+	default:
+		cf = new(big.Int).Add(dec.Pow10(L-1), big.NewInt(r.Range(0, 999)))
+	}
+	c := dec.Ctx{P: L - r.Range(1, 99000), Emin: -100000, Emax: 100000, Mode: gen.Mode(r)}
+	// the exponent must lie within the limits, and so must the adjusted exponent
+	x := dec.D{Form: dec.Finite, Neg: r.Bool(), C: cf, E: r.Range(-100000, 100001-L)}
+	switch r.Intn(5) {
+	case 0:
+		arithCase(t, which, "round", c, x, dec.D{})
+	case 1:
+		arithCase(t, which, "abs", c, x, dec.D{})
+	case 2:
+		arithCase(t, which, "neg", c, x, dec.D{})
+	case 3:
+		arithCase(t, which, "add", c, x, dec.Zero(false, x.E))
+	default:
+		arithCase(t, which, "mul", c, x, dec.FromInt(1, 0))
+	}
+	t.Count("giant-round")
+}
+
 // hugePrecisionCase: Precision from 2^31 to MaxUint32 ("unlimited"): no
 // operation other than Quo and the transcendental functions gets slower with
 // it, the results are simply exact - but conversions of Precision to int32
@@ -419,6 +474,15 @@ func runC01(r *mon.Run) {
 	r.Parallel("p0", r.N(60000, 3000000), p0Case)
 	r.Parallel("coincidence-lengths", int64(len(coincidenceExps))*r.N(3, 40), func(t *mon.T) { coincidenceArithCase(t, "value") })
 	r.Require("coincidence-lengths", 300)
+	r.Parallel("kept-boundary", r.N(20000, 1500000), func(t *mon.T) { keptBoundaryCase(t, "value") })
+	r.Parallel("giant-round", r.N(600, 100000), func(t *mon.T) {
+		L := 100002 + t.Index
+		if r.Quick() {
+			L = t.Rng.Range(100002, 200001)
+		}
+		giantRoundCase(t, "value,fit", L)
+	})
+	r.Require("giant-round", 500)
 	r.Parallel("huge-precision", r.N(6000, 400000), func(t *mon.T) { hugePrecisionCase(t, "value") })
 	r.Require("huge-precision", 5000)
 	if !r.Quick() {
